@@ -5,6 +5,8 @@ import OsloPolicy.Model.Validate
 import OsloPolicy.Model.Loader
 import OsloPolicy.Model.Sched
 import OsloPolicy.Model.External
+import OsloPolicy.Model.SampleGen
+import OsloPolicy.Model.Tools
 import OsloPolicy.Generated.PyTables
 /-
 JSON-lines driver: one request per line on stdin, one answer per line on stdout.
@@ -299,6 +301,47 @@ def handle (j : Json) : Except String Json := do
     let bs := Sched.readerOutcomes sc s0
     let as := ((List.range (Sched.span sc + 1)).map fun k => (Sched.oneSwitch sc s0 k).1).eraseDups
     pure (Json.mkObj [("outcomes", .arr ((bs ++ as).eraseDups.map shw).toArray)])
+  | "sample_yaml" => do
+    let strs (x : Json) : List Str := match x with
+      | .arr xs => xs.toList.filterMap fun y => match y with | .str s => some (s2l s) | _ => none
+      | _ => []
+    let optLines (x : Json) : Option (List Str) := match x with | .null => none | y => some (strs y)
+    let wrapTab := getD j "wrap"
+    let splitTab := getD j "split"
+    -- a table miss yields a marker line, so that it shows up as a disagreement instead of passing silently
+    let wrap (s : Str) : List Str := match wrapTab.getObjVal? (l2s s) with
+      | .ok v => strs v
+      | _ => [s2l ("<<wrap table miss: " ++ l2s s ++ ">>")]
+    let split (s : Str) : List Str := match splitTab.getObjVal? (l2s s) with
+      | .ok v => strs v
+      | _ => [s2l ("<<split table miss: " ++ l2s s ++ ">>")]
+    let ds : List GenDefault := (getArrD j "defaults").toList.map fun d =>
+      let ops : Option (List Operation) := match getD d "operations" with
+        | .arr xs => some (xs.toList.filterMap fun o => match o with
+            | .arr #[.str m, .str p] => some ⟨s2l m, s2l p⟩
+            | _ => none)
+        | _ => none
+      let dep : Option (Str × Str) := match getD d "deprecated" with
+        | .arr #[.str a, .str b] => some (s2l a, s2l b)
+        | _ => none
+      ({ name := s2l (getStrD d "name"), checkStr := s2l (getStrD d "check_str"),
+         description := optLines (getD d "description"), operations := ops,
+         scopeTypes := (match getD d "scope_types" with | .null => none | y => some (strs y)),
+         deprecatedForRemoval := getBoolD d "removal", deprecatedReason := optLines (getD d "reason"),
+         deprecatedSince := s2l (getStrD d "since"), deprecated := dep } : GenDefault)
+    let lines := sampleYaml wrap split (getBoolD j "exclude_deprecated") ds
+    pure (Json.mkObj [("lines", .arr (lines.map fun l => Json.str (l2s l)).toArray),
+                      ("json", .arr ((sampleJsonEntries ds).map fun l => Json.str (l2s l)).toArray)])
+  | "tool_upgrade" | "tool_convert" | "tool_generate" | "tool_redundant" => do
+    let file ← contentOf (getD j "file")
+    let regs ← regsOf j
+    let enc (v : JVal) : Json := Json.str (l2s v.pyStr)
+    let outC (c : Content) : Json := .arr (c.map fun (k, v) => Json.arr #[Json.str (l2s k), enc v]).toArray
+    match getStrD j "op" with
+    | "tool_upgrade" => pure (Json.mkObj [("out", outC (toolUpgrade file regs))])
+    | "tool_convert" => pure (Json.mkObj [("out", outC (toolConvert file regs))])
+    | "tool_generate" => pure (Json.mkObj [("out", outC (toolGenerate file regs))])
+    | _ => pure (Json.mkObj [("names", .arr ((toolRedundant file regs).map fun n => Json.str (l2s n)).toArray)])
   | "spec_den" => do
     -- {"e": <stratified expression>, "assign": [[true leaf texts…]…]} ↦ Boolean value of the
     -- sentence under each assignment, computed by Spec.Grammar (not by the parser model)
